@@ -14,6 +14,7 @@
 //   - prelude = only packets that carry parameter sets; for every parameter-set
 //     type seen so far, the last packet in prelude+body that carries it is the
 //     most recent such packet published.
+//
 // Window variants put the join inside the publisher's cache-then-broadcast
 // window and a publish inside the join's snapshot-then-register window.
 // The FLV variant drives the real demuxer → FLV muxer and judges the tag list an
@@ -22,7 +23,9 @@ package c02
 
 import (
 	"bytes"
+	"encoding/json"
 	"fmt"
+	"os"
 	"sync"
 	"testing"
 	"time"
@@ -355,6 +358,17 @@ func run(t evid.TB, pl *plan, windows bool) {
 		if !in.Wait(bound) {
 			evid.Violation(t, "stuck", pl, "an operation started inside a window never finished")
 		}
+		if cursor%200 == 0 {
+			// pacing only (long logs): a publisher that outruns the recorders by 1000 packets
+			// would make their backlog drop legitimately
+			mu.Lock()
+			var cs []media.CID
+			for _, j := range joiners {
+				cs = append(cs, j.cid)
+			}
+			mu.Unlock()
+			tr.WaitIdle(s, cs, bound)
+		}
 	}
 	var cids []media.CID
 	for _, j := range joiners {
@@ -517,7 +531,7 @@ func tagStr(tg *flv.Tag) string {
 }
 
 func TestLateJoinFLV(t *testing.T) {
-	evid.Checks(150, 2500)
+	evid.Checks(300, 4000)
 	rapid.Check(t, func(t *rapid.T) {
 		pl := genPlan(t)
 		config.VerifSet(":0", false, pl.CacheGop, "", 5)
@@ -543,9 +557,8 @@ func TestLateJoinFLV(t *testing.T) {
 			t.Fatalf("FLV consumption not supported for this stream (harness SDP problem)")
 		}
 		pause := rapid.IntRange(0, len(pl.pubs)).Draw(t, "joinAfter")
-		for i := 0; i < pause; i++ {
-			s.WriteRtpPacket(pl.pubs[i].P)
-		}
+		mode := rapid.SampledFrom([]string{"sequential", "join-in-publish-window", "publish-in-join-window"}).Draw(t, "mode")
+		joinAtTag := rapid.IntRange(1, len(pl.pubs)+3).Draw(t, "joinAtTag")
 		// let the converter goroutines settle so that the join lands at a generated,
 		// reproducible place in the tag stream (the oracle uses the traced position anyway)
 		settle := func() {
@@ -560,11 +573,78 @@ func TestLateJoinFLV(t *testing.T) {
 				return stable >= 15
 			})
 		}
-		settle()
-		j := mediah.NewRec("joiner")
-		jcid := s.StartConsume(j, media.FLVPacket, "joiner")
-		for i := pause; i < len(pl.pubs); i++ {
-			s.WriteRtpPacket(pl.pubs[i].P)
+		var jmu sync.Mutex
+		var j *mediah.Rec
+		var jcid media.CID
+		cursor := 0
+		publishNext := func(n int) {
+			for ; n > 0; n-- {
+				jmu.Lock()
+				if cursor >= len(pl.pubs) {
+					jmu.Unlock()
+					return
+				}
+				p := pl.pubs[cursor]
+				cursor++
+				jmu.Unlock()
+				s.WriteRtpPacket(p.P)
+			}
+		}
+		join := func() {
+			jmu.Lock()
+			if j != nil {
+				jmu.Unlock()
+				return
+			}
+			j = mediah.NewRec("joiner")
+			rec := j
+			jmu.Unlock()
+			cid := s.StartConsume(rec, media.FLVPacket, "joiner")
+			jmu.Lock()
+			jcid = cid
+			jmu.Unlock()
+		}
+		inWindow := false
+		switch mode {
+		case "join-in-publish-window":
+			// the join runs inside the FLV publisher's cache-then-broadcast window of the k-th tag
+			in.Add(&sched.Directive{Point: "flvpublish.cached", Occ: joinAtTag, Do: func() { inWindow = true; join() }})
+			publishNext(len(pl.pubs))
+			settle()
+			join() // the window was never reached: a plain join at the end
+		case "publish-in-join-window":
+			publishNext(pause)
+			settle()
+			cachedBefore := func() int {
+				n := 0
+				for _, ev := range in.Trace() {
+					if ev.Point == "flvpublish.cached" {
+						n++
+					}
+				}
+				return n
+			}
+			// while the joiner is between its snapshot and its registration, packets are
+			// published; the window stays open until a tag was cached or the grace ran out
+			in.Add(&sched.Directive{Point: "join.snapshotted", Occ: 1, Filter: func(o interface{}) bool {
+				cid, ok := media.VerifConsumptionCID(o)
+				return ok && cid.Type() == media.FLVPacket && cid != firstCID
+			}, Do: func() {
+				inWindow = true
+				before := cachedBefore()
+				publishNext(3)
+				mediah.WaitFor(12*time.Millisecond, func() bool { return cachedBefore() > before })
+			}})
+			join()
+			publishNext(len(pl.pubs))
+		default:
+			publishNext(pause)
+			settle()
+			join()
+			publishNext(len(pl.pubs))
+		}
+		if !in.Wait(bound) {
+			evid.Violation(t, "stuck", pl, "an operation started inside a window never finished")
 		}
 		settle()
 		if !tr.WaitIdle(s, []media.CID{firstCID, jcid}, bound) {
@@ -657,10 +737,109 @@ func TestLateJoinFLV(t *testing.T) {
 				evid.Violation(t, "flv-join-header", fc, "FLV joiner tag %d is %s, reference header %s stamped %d\n got  %v\n want %v", i, tagStr(g), tagStr(w.hdr), ts0, fc.Joiner, fc.Reference)
 			}
 		}
+		if inWindow {
+			evid.Class("flv: " + mode)
+		}
 		if len(gop) >= 2 && m < len(all) {
 			evid.Class("flv: join inside a GOP with live tags after it")
 			evid.Nontrivial(evid.FP("flv", fmt.Sprint(pl.Packets), pl.CacheGop, pause))
 			evid.Sample("flv", fc)
 		}
 	})
+}
+
+// Long-running stream: the parameter sets are sent once, in band, at the very
+// beginning (legal, and what many cameras do), then tens of thousands of packets
+// follow — more than the 16-bit RTP sequence space. Joiners arrive far into the
+// stream, in particular just before and after 32768 and 65536 packets, and must
+// still be handed the parameter sets and the current GOP.
+func TestLateJoinLongRunning(t *testing.T) {
+	for _, cdc := range []esgen.Codec{esgen.H264, esgen.H265} {
+		pl := &plan{cdc: cdc, Codec: cdc.String(), CacheGop: true}
+		seq := uint16(evid.Seed()*7919 + 60000)
+		ts := uint32(5000)
+		add := func(payload []byte, desc string, ps map[byte]bool, vcl, keyStart, anyKey, marker bool) {
+			pk := rtppack.Pkt{PT: 96, Seq: seq, TS: ts, SSRC: 11, Marker: marker, Payload: payload}
+			seq++
+			pb := &mediah.Pub{P: rtppack.ToIpchub(rtp.ChannelVideo, pk.Marshal()), Channel: rtp.ChannelVideo, CarriesPS: ps, CarriesVCL: vcl, KeyStart: keyStart, AnyKeyData: anyKey, TS: ts, Desc: desc, Index: len(pl.pubs)}
+			if pb.CarriesPS == nil {
+				pb.CarriesPS = map[byte]bool{}
+			}
+			pl.pubs = append(pl.pubs, pb)
+			pl.Packets = append(pl.Packets, desc)
+		}
+		hdr := func(typ byte, n int, tag int) []byte {
+			b := []byte{0x60 | typ}
+			if cdc == esgen.H265 {
+				b = []byte{typ << 1, 1}
+			}
+			for len(b) < n {
+				b = append(b, byte(0x80|tag>>uint(8*(len(b)%3))&0x7f))
+			}
+			return b
+		}
+		if cdc == esgen.H264 {
+			add(rtppack.H264Single(esgen.RealH264SPS), "sps", map[byte]bool{esgen.H264SPS: true}, false, false, false, false)
+			add(rtppack.H264Single(esgen.RealH264PPS), "pps", map[byte]bool{esgen.H264PPS: true}, false, false, false, false)
+		} else {
+			add(rtppack.H265Single(esgen.RealH265VPS), "vps", map[byte]bool{esgen.H265VPS: true}, false, false, false, false)
+			add(rtppack.H265Single(esgen.RealH265SPS), "sps", map[byte]bool{esgen.H265SPS: true}, false, false, false, false)
+			add(rtppack.H265Single(esgen.RealH265PPS), "pps", map[byte]bool{esgen.H265PPS: true}, false, false, false, false)
+		}
+		const gops, perGop = 1420, 50
+		for g := 0; g < gops; g++ {
+			ts += 3000
+			var frags [][]byte
+			if cdc == esgen.H264 {
+				frags = rtppack.H264FuA(hdr(esgen.H264IDR, 40, g), 14)
+			} else {
+				frags = rtppack.H265FU(hdr(19, 40, g), 14)
+			}
+			for i, f := range frags {
+				add(f, fmt.Sprintf("idr.fu%d", i), nil, true, i == 0, i == 0, i == len(frags)-1)
+			}
+			for i := len(frags); i < perGop; i++ {
+				ts += 3000
+				if cdc == esgen.H264 {
+					add(rtppack.H264Single(hdr(esgen.H264Slice, 9, g*perGop+i)), "p", nil, true, false, false, true)
+				} else {
+					add(rtppack.H265Single(hdr(1, 9, g*perGop+i)), "p", nil, true, false, false, true)
+				}
+			}
+		}
+		n := len(pl.pubs)
+		for _, k := range []int{120, 9990, 32740, 32790, 33400, 49000, 65500, 65560, 66100, n - 60} {
+			pl.Joins = append(pl.Joins, k)
+		}
+		run(t, pl, false)
+		evid.Class("long-running: " + cdc.String() + fmt.Sprintf(" %d packets, parameter sets only at the start", n))
+	}
+}
+
+// TestReplayFile: rapid failures replay through their .fail file; the JSON
+// renderings of the deterministic tests (long-running stream, witness) are
+// replayed by re-running that test.
+func TestReplayFile(t *testing.T) {
+	p := os.Getenv("VERIF_REPLAY_FILE")
+	if p == "" {
+		t.Skip("no replay file")
+	}
+	b, err := os.ReadFile(p)
+	if err != nil {
+		t.Fatal(err)
+	}
+	var doc struct {
+		Case struct {
+			Plan struct {
+				Packets []string `json:"packets"`
+			} `json:"plan"`
+		} `json:"case"`
+	}
+	json.Unmarshal(b, &doc)
+	if len(doc.Case.Plan.Packets) > 10000 {
+		TestLateJoinLongRunning(t)
+		return
+	}
+	TestWitnessFragmentedParameterSet(t)
+	t.Log("generated cases replay through the rapid .fail file written next to this rendering")
 }
